@@ -363,6 +363,9 @@ def main():
     if "real" in req:
         import c12_real
         out["real"] = c12_real.real_section(req["real"])
+    if "initstate" in req:
+        import c12_real
+        out["initstate"] = c12_real.initstate_section(req["initstate"])
     if "arrays" in req:
         import c12_real
         out["arrays"] = c12_real.arrays_section(req["arrays"])
